@@ -9,6 +9,7 @@ import (
 	"hash/crc32"
 	"io"
 	"strings"
+	"time"
 
 	"verifharness/kit"
 
@@ -54,8 +55,8 @@ type writeSpec struct {
 	Size     int     `json:"size"`
 	Seed     uint64  `json:"content_seed"`
 	Chunking string  `json:"chunking"`
-	Reads    []int   `json:"reads"`  // sizes the reader returns, in order
-	Ending   string  `json:"ending"` // eof | err | cancel
+	Reads    []int   `json:"reads"`              // sizes the reader returns, in order
+	Ending   string  `json:"ending"`             // eof | err | cancel
 	ErrKind  string  `json:"err_kind,omitempty"` // what an "err" ending returns: "" = a private error | ueof = io.ErrUnexpectedEOF (a request body cut short)
 	Via      string  `json:"via,omitempty"`      // "" = IBLOBStorage directly | blobber = through the write step of the BLOB processor
 	// the last Read result comes together with the ending (n > 0 and io.EOF / the error / the cancel),
@@ -94,16 +95,17 @@ func content(seed uint64, size int) []byte {
 
 // scriptedReader returns exactly the scripted read sizes, then the scripted ending
 type scriptedReader struct {
-	data     []byte
-	reads    []int
-	i        int
-	pos      int
-	ending   string
-	errKind  string
-	withData bool
-	ended    bool
-	cancel   context.CancelFunc
-	got      [][2]uint64 // (len, crc) per Read result
+	data      []byte
+	reads     []int
+	i         int
+	pos       int
+	ending    string
+	errKind   string
+	withData  bool
+	ended     bool
+	cancelled bool
+	cancel    context.CancelFunc
+	got       [][2]uint64 // (len, crc) per Read result
 }
 
 var errReader = errors.New("scripted reader failure")
@@ -117,6 +119,11 @@ func (r *scriptedReader) readErr() error {
 }
 
 func (r *scriptedReader) Read(p []byte) (int, error) {
+	if r.cancelled {
+		// a request body read after its context was cancelled fails; answering (0, nil) for ever would
+		// hang any reader loop that does not look at the context itself
+		return 0, context.Canceled
+	}
 	if r.ended {
 		return 0, io.EOF
 	}
@@ -126,6 +133,7 @@ func (r *scriptedReader) Read(p []byte) (int, error) {
 			return 0, r.readErr()
 		case "cancel":
 			r.cancel()
+			r.cancelled = true
 			return 0, nil
 		}
 		return 0, io.EOF
@@ -145,6 +153,7 @@ func (r *scriptedReader) Read(p []byte) (int, error) {
 			return n, r.readErr()
 		case "cancel":
 			r.cancel()
+			r.cancelled = true
 			return n, nil
 		}
 		return n, io.EOF
@@ -273,15 +282,37 @@ func run(sc *scenario) (coq string, tags []string, err error) {
 			crashAfter, writeCalls = w.CrashAfter, 0
 			var size uint64
 			var werr error
+			// the write runs under a watchdog: a write that does not come back is an outcome of this case
+			// (code 9, scenario ended), not a dead harness
+			type wres struct {
+				size uint64
+				err  error
+			}
+			done := make(chan wres, 1)
+			go func() {
+				var r wres
+				if w.Via == "blobber" {
+					// the write step of the BLOB processor: what an upload goes through above IBLOBStorage
+					r.size, r.err = blobprocessor.VerifWriteBLOB(ctx, bs, func() iblobstorage.WLimiterType { return lim }, w.Key.key(),
+						descrOf(w.Descr), io.NopCloser(rd), iblobstorage.DurationType(w.Dur))
+				} else if w.Key.Persistent {
+					r.size, r.err = bs.WriteBLOB(ctx, *(w.Key.key().(*iblobstorage.PersistentBLOBKeyType)), descrOf(w.Descr), rd, lim)
+				} else {
+					r.size, r.err = bs.WriteTempBLOB(ctx, *(w.Key.key().(*iblobstorage.TempBLOBKeyType)), descrOf(w.Descr), rd, lim, iblobstorage.DurationType(w.Dur))
+				}
+				done <- r
+			}()
 			if w.Via == "blobber" {
-				// the write step of the BLOB processor: what an upload goes through above IBLOBStorage
-				size, werr = blobprocessor.VerifWriteBLOB(ctx, bs, func() iblobstorage.WLimiterType { return lim }, w.Key.key(),
-					descrOf(w.Descr), io.NopCloser(rd), iblobstorage.DurationType(w.Dur))
 				tagset["via:blobber"] = true
-			} else if w.Key.Persistent {
-				size, werr = bs.WriteBLOB(ctx, *(w.Key.key().(*iblobstorage.PersistentBLOBKeyType)), descrOf(w.Descr), rd, lim)
-			} else {
-				size, werr = bs.WriteTempBLOB(ctx, *(w.Key.key().(*iblobstorage.TempBLOBKeyType)), descrOf(w.Descr), rd, lim, iblobstorage.DurationType(w.Dur))
+			}
+			hung := false
+			select {
+			case r := <-done:
+				size, werr = r.size, r.err
+			case <-time.After(60 * time.Second):
+				hung = true
+				werr = errors.New("the write did not return within 60 s")
+				tagset["write-hung"] = true
 			}
 			cancel()
 			crashed := w.CrashAfter > 0 && writeCalls > w.CrashAfter // a call was refused: the write did not run to its end
@@ -337,6 +368,9 @@ func run(sc *scenario) (coq string, tags []string, err error) {
 			}
 			if w.Size > bucketBytes {
 				tagset["multibucket"] = true
+			}
+			if hung {
+				break // the write may still be running against the storage: nothing more can be judged here
 			}
 		}
 		if o.R != nil {
